@@ -614,6 +614,13 @@ Proof.
   destruct (q a) eqn:Eq, (p a) eqn:Ep; cbn [filter]; rewrite ?Eq, ?Ep, IH; reflexivity.
 Qed.
 
+Lemma filter_neq_mid : forall d pre rest, ~ In d pre -> ~ In d rest ->
+  filter (fun x => negb (val_eqb d x)) (pre ++ d :: rest) = pre ++ rest.
+Proof.
+  intros d pre rest Hp Hr. rewrite filter_app, (filter_neq_notin d pre Hp). cbn [filter].
+  rewrite val_eqb_refl. cbn [negb]. rewrite (filter_neq_notin d rest Hr). reflexivity.
+Qed.
+
 (* adjacent upward merge (d immediately before k among the leaders, d <= k): exactly the x whose
    first leader >= x was d are now sent to k; every other x keeps its leader *)
 Theorem update_quant_upward : forall tables st d k pre post,
@@ -654,11 +661,7 @@ Proof.
   fold st' in Hkeys, Hgk, Hn'. rewrite He in Hkeys, Hgk.
   assert (Hq' : quant_leaders st' = pre ++ k :: post).
   { unfold quant_leaders. rewrite Hkeys, Hn', filter_comm. fold (quant_leaders st). rewrite Hq.
-    rewrite filter_app. cbn [filter]. rewrite val_eqb_refl. cbn [negb].
-    rewrite (filter_neq_notin d pre Hdpre).
-    change (filter (fun x => negb (val_eqb d x)) (k :: post)) with
-           (filter (fun x => negb (val_eqb d x)) (k :: post)).
-    rewrite (filter_neq_notin d (k :: post) Hdpost). reflexivity. }
+    apply filter_neq_mid; assumption. }
   split; [exact Hoc|]. split; [exact Hq'|]. split.
   - rewrite Hgk. assert (E : mem d (keys (st_order st)) = true) by (apply mem_In; exact Hdin).
     rewrite E. reflexivity.
@@ -685,7 +688,7 @@ Definition ex_quant : state :=
 Theorem downward_merge_refuted :
   exists tables st d k x pre post,
     WF (st_order st) /\ fitted tables st /\
-    quant_leaders st = pre ++ k :: d :: post /\ num_le k d = true /\ valid_edit st MGroup d k /\
+    quant_leaders st = (pre ++ k :: d :: post)%list /\ num_le k d = true /\ valid_edit st MGroup d k /\
     let st' := fst (update tables st MGroup d k) in
     snd (update tables st MGroup d k) = UDone /\
     first_leader x (quant_leaders st) = Some d /\
@@ -697,7 +700,7 @@ Proof.
   split; [apply wf_b_spec; vm_compute; reflexivity|].
   split; [reflexivity|]. split; [reflexivity|]. split; [reflexivity|].
   split.
-  { split; [discriminate|]. split; [right; right; left; reflexivity | left; right; right; left; reflexivity]. }
+  { split; [discriminate|]. split; [right; left; reflexivity | left; right; right; left; reflexivity]. }
   cbv zeta. split; [vm_compute; reflexivity|]. split; [vm_compute; reflexivity|].
   split; [vm_compute; discriminate|]. split; vm_compute; reflexivity.
 Qed.
@@ -733,9 +736,6 @@ Proof.
   split; [apply wf_b_spec; vm_compute; reflexivity|].
   split; [apply labels_refresh_consistent; vm_compute; reflexivity|].
   cbv zeta. split; [vm_compute; reflexivity|]. split.
-  - intro H. apply (f_equal (fun s => List.length (keys (st_order s)))) in H. revert H.
-    unfold fitted. intro H.
-    apply (f_equal (fun n => n)) in H. clear H.
-    intro H'. exact H'.
+  - unfold fitted. intro H. apply (f_equal st_lpv) in H. vm_compute in H. discriminate H.
   - split; vm_compute; reflexivity.
 Qed.
